@@ -9,6 +9,9 @@ from pathlib import Path
 from . import emit
 
 
+UNCLASSIFIED_NOTES = []
+
+
 class Unclassified(Exception):
     pass
 
@@ -393,8 +396,11 @@ def worker_fact(cx, owner, fn):
                         # resolve `if connection.restart_offset: x = "r+b" else: x = mode`
                         found = []
                         for m in own_nodes(fn):
-                            if isinstance(m, ast.If) and is_attr(m.test, "connection", "restart_offset"):
-                                for br, tag in ((m.body, "restart:"), (m.orelse, "norestart:")):
+                            # the offset the worker reads: the dispatcher's hand-over slot (transfer_offset) in the
+                            # repaired source, restart_offset itself in the old one (the dispatcher facts say which)
+                            if isinstance(m, ast.If) and (is_attr(m.test, "connection", "restart_offset") or is_attr(m.test, "connection", "transfer_offset")):
+                                kind = "restart" if is_attr(m.test, "connection", "restart_offset") else "handed"
+                                for br, tag in ((m.body, kind + ":"), (m.orelse, "no" + kind + ":")):
                                     for s_ in br:
                                         if isinstance(s_, ast.Assign) and isinstance(s_.targets[0], ast.Name) and s_.targets[0].id == k.value.id:
                                             v = s_.value
@@ -556,9 +562,27 @@ def dispatcher_facts(cx):
     if len(tr) != 1:
         raise Unclassified("dispatcher: expected exactly one top-level try")
     tr = tr[0]
-    outer = [(src(h.type) if h.type else "BaseException", except_actions(h)) for h in tr.handlers]
-    fin = []
-    flatten_finally(tr.finalbody, [], {}, fin)
+    # Granular fail-closed: a fact group that cannot be classified becomes a sentinel ("?unclassified: ...") which no
+    # reference value equals, so only the obligations that mention THAT fact break (and the properties that never
+    # look at it are not alarmed by an edit that is harmless to them).
+    def guarded(f, sentinel):
+        try:
+            return f()
+        except Unclassified as e:
+            UNCLASSIFIED_NOTES.append(str(e))
+            return sentinel("?unclassified: " + str(e).replace('"', "'"))
+
+    outer = guarded(
+        lambda: [(src(h.type) if h.type else "BaseException", except_actions(h)) for h in tr.handlers],
+        lambda m: [(m, [])],
+    )
+
+    def _fin():
+        f = []
+        flatten_finally(tr.finalbody, [], {}, f)
+        return f
+
+    fin = guarded(_fin, lambda m: [m])
     # inner try around task.result()
     inner = [n for n in ast.walk(ast.Module(body=tr.body, type_ignores=[])) if isinstance(n, ast.Try)]
     if len(inner) != 1:
@@ -566,10 +590,39 @@ def dispatcher_facts(cx):
     inner = inner[0]
     if "task.result()" not in src(inner.body[0]):
         raise Unclassified("dispatcher: inner try does not wrap task.result()")
-    task_exc = [(src(h.type) if h.type else "BaseException", except_actions(h)) for h in inner.handlers]
+    task_exc = guarded(
+        lambda: [(src(h.type) if h.type else "BaseException", except_actions(h)) for h in inner.handlers],
+        lambda m: [(m, [])],
+    )
     # restart offset reset
     exempt = None
+    handed = []
     unknown = None
+    # repaired shape: `if cmd in (...): connection.transfer_offset = connection.restart_offset` directly followed
+    # by an unconditional `connection.restart_offset = 0` (no verb exempt; the offset is handed to the listed verbs)
+    for n in ast.walk(disp):
+        for blk in (getattr(n, "body", None), getattr(n, "orelse", None)):
+            if not isinstance(blk, list):
+                continue
+            for i, st in enumerate(blk):
+                if isinstance(st, ast.stmt) and src(st) == "connection.restart_offset = 0" and not (
+                    isinstance(n, ast.If) and isinstance(n.test, ast.Compare) and isinstance(n.test.ops[0], ast.NotIn)
+                ):
+                    prev = blk[i - 1] if i > 0 else None
+                    if (
+                        isinstance(prev, ast.If)
+                        and isinstance(prev.test, ast.Compare)
+                        and isinstance(prev.test.left, ast.Name)
+                        and prev.test.left.id == "cmd"
+                        and isinstance(prev.test.ops[0], ast.In)
+                        and not prev.orelse
+                        and [src(x) for x in prev.body] == ["connection.transfer_offset = connection.restart_offset"]
+                    ):
+                        exempt = []
+                        handed = list(ast.literal_eval(prev.test.comparators[0]))
+                    else:
+                        UNCLASSIFIED_NOTES.append("dispatcher: unconditional restart_offset reset without the hand-over")
+                        exempt = ["?unclassified: unconditional restart_offset reset without the hand-over to transfer commands"]
     false_ends = False
     for n in ast.walk(disp):
         if isinstance(n, ast.If):
@@ -587,7 +640,8 @@ def dispatcher_facts(cx):
             if isinstance(a, ast.Constant) and a.value.startswith("50"):
                 unknown = a.value
     if exempt is None:
-        raise Unclassified("dispatcher: restart_offset reset not found")
+        UNCLASSIFIED_NOTES.append("dispatcher: restart_offset reset not found")
+        exempt = ["?unclassified: restart_offset reset not found"]
     if unknown is None:
         raise Unclassified("dispatcher: unknown-verb reply not found")
     pend = []
@@ -602,7 +656,7 @@ def dispatcher_facts(cx):
     pr = lambda l: "[" + "; ".join(f"({S(a)}, {slist(b)})" for a, b in l) + "]"
     return table, (
         "{| d_table := [%s];\n     d_table_literal := %s;\n     d_task_except := %s;\n     d_outer_except := %s;\n"
-        "     d_finally := %s;\n     d_reset_exempt := %s; d_unknown_code := %s; d_false_ends := %s;\n"
+        "     d_finally := %s;\n     d_reset_exempt := %s; d_offset_handed := %s; d_unknown_code := %s; d_false_ends := %s;\n"
         "     d_initial_pending := %s; d_conn_init := %s |}"
         % (
             "; ".join(f"({S(k)}, {S(v)})" for k, v in table),
@@ -611,6 +665,7 @@ def dispatcher_facts(cx):
             pr(outer),
             slist(fin),
             slist(exempt),
+            slist(handed),
             S(unknown),
             emit.boolean(false_ends),
             slist(pend),
@@ -623,6 +678,7 @@ def generate(src_dir):
     path = Path(src_dir) / "server.py"
     tree = ast.parse(path.read_text())
     cx = Ctx(tree)
+    del UNCLASSIFIED_NOTES[:]
     table, dfacts = dispatcher_facts(cx)
     names = []
     for _, m in table:
@@ -668,7 +724,9 @@ def generate(src_dir):
             abor_test = src(n.test)
     out = emit.HEADER.format(src=str(path))
     out += "From Coq Require Import String.\nFrom Verif Require Import Lib.Facts.\nLocal Open Scope string_scope.\n\n"
-    out += "Definition translator_ok : bool := true.\n\n"
+    out += "Definition translator_ok : bool := true.\n"
+    out += "(* fact groups the translator could not classify (their values are '?unclassified' sentinels) *)\n"
+    out += f"Definition translator_notes : list string := {slist(UNCLASSIFIED_NOTES)}.\n\n"
     out += "Definition dispatcher : dispatcher_facts :=\n  " + dfacts + ".\n\n"
     out += "Definition handlers : list handler := [\n  " + ";\n  ".join(hs) + "\n].\n\n"
     out += "Definition helpers : list handler := [\n  " + ";\n  ".join(helpers) + "\n].\n\n"
